@@ -67,7 +67,10 @@ package clientpb
 //@   ensures [dup-ignored] old(isdupc(c, cmd)) ==> len(c.cache) == old(len(c.cache)) && samearr(c.cache, old(c.cache))
 //@   ensures [appended] !old(isdupc(c, cmd)) ==> len(c.cache) == old(len(c.cache)) + 1 && c.cache[old(len(c.cache))] == cmd && (forall j int :: {c.cache[j]} 0 <= j && j < old(len(c.cache)) ==> c.cache[j] == old(c.cache[j]))
 //@   ensures [nonnil] cnonnil(c.cache)
-//@   modifies c.cache, c.cache[*], alloc
+//@   ghost at call signalReady :: emit readysig(1)
+//@   ensures [signals-whenever-a-full-batch-is-stored] !old(isdupc(c, cmd)) && wrapu32(len(c.cache)) >= c.batchSize ==> tracelen(readysig) == old(tracelen(readysig)) + 1
+//@   ensures [signals-at-most-once] tracelen(readysig) <= old(tracelen(readysig)) + 1
+//@   modifies c.cache, c.cache[*], trace(readysig), alloc
 
 // Marks only move forward: the per-client proposed sequence number never decreases, and
 // afterwards every command of the batch is at or below its client's mark.
